@@ -126,3 +126,54 @@ def main(part=None):
         sys.exit(1)
     print("not reproduced")
     sys.exit(0)
+
+
+def main_more():
+    """a three-winding transformer with one winding at an out-of-service bus; DC power flow with voltage set points != 1"""
+    fails = []
+    # (a) trafo3w: the lv side is dead, hv -> mv carries the load
+    for loading in ("current", "power"):
+        n = [net for name, net in nets() if name == "3w-heavy-mv"][0]
+        n.bus.loc[[2, 4], "in_service"] = False        # lv bus of the trafo3w and the bus behind it
+        pp.runpp(n, trafo_loading=loading)
+        r3, t3 = n.res_trafo3w, n.trafo3w
+        lds = []
+        for s in ("hv", "mv"):
+            b = t3[f"{s}_bus"].values
+            S = s_abs(r3[f"p_{s}_mw"].values, r3[f"q_{s}_mvar"].values)
+            i = S / (SQ3 * n.res_bus.vm_pu.loc[b].values * n.bus.vn_kv.loc[b].values)
+            lds.append(i * t3[f"vn_{s}_kv"].values * SQ3 / t3[f"sn_{s}_mva"].values * 100 if loading == "current" else S / t3[f"sn_{s}_mva"].values * 100)
+        want = np.maximum(*lds)
+        got = r3.loading_percent.values
+        if not np.allclose(got, want, rtol=1e-6, atol=1e-7):
+            fails.append(f"trafo3w with the lv bus out of service, trafo_loading={loading}: p_hv = {r3.p_hv_mw.values[0]:.3f} MW, loading_percent = "
+                         f"{got[0]:.4f}, documented model (max over the windings in operation) gives {want[0]:.4f}")
+    # (b) DC power flow: |V| = 1 p.u. everywhere, so a (lossless) branch carries |p| / (sqrt(3) vn) at both ends
+    n = pp.create_empty_network()
+    b = pp.create_buses(n, 4, 110.)
+    pp.create_ext_grid(n, b[0], vm_pu=1.06)
+    pp.create_gen(n, b[1], p_mw=10., vm_pu=1.05)
+    for f, t in ((0, 1), (1, 2), (2, 3)):
+        pp.create_line_from_parameters(n, b[f], b[t], 10., 0.06, 0.3, 10., 0.6)
+    pp.create_transformer_from_parameters(n, b[3], pp.create_bus(n, 20.), 40., 110., 20., 0.4, 12., 20., 0.05)
+    pp.create_load(n, b[2], 60., 10.); pp.create_load(n, b[3], 20., 5.); pp.create_load(n, 4, 10., 2.)
+    pp.rundcpp(n)
+    if not np.allclose(n.res_bus.vm_pu.values, 1.):
+        fails.append(f"rundcpp with ext_grid vm_pu = 1.06, gen vm_pu = 1.05: res_bus.vm_pu = {n.res_bus.vm_pu.values.tolist()} (DC model: 1 p.u.)")
+    want = np.abs(n.res_line.p_from_mw.values) / (SQ3 * 110.)
+    for side in ("from", "to"):
+        got = n.res_line[f"i_{side}_ka"].values
+        if not np.allclose(got, want, rtol=1e-6, atol=1e-9):
+            fails.append(f"rundcpp with ext_grid vm_pu = 1.06, gen vm_pu = 1.05: res_line.i_{side}_ka = {np.round(got, 5).tolist()}, the DC model "
+                         f"(|V| = 1 p.u.) gives |p| / (sqrt(3) vn) = {np.round(want, 5).tolist()}")
+    want = want / n.line.max_i_ka.values * 100
+    if not np.allclose(n.res_line.loading_percent.values, want, rtol=1e-6, atol=1e-7):
+        fails.append(f"rundcpp: res_line.loading_percent = {np.round(n.res_line.loading_percent.values, 3).tolist()}, DC model {np.round(want, 3).tolist()}")
+    want = np.abs(n.res_trafo.p_hv_mw.values) / 40. * 100
+    if not np.allclose(n.res_trafo.loading_percent.values, want, rtol=1e-6, atol=1e-7):
+        fails.append(f"rundcpp: res_trafo.loading_percent = {n.res_trafo.loading_percent.values.tolist()}, DC model {want.tolist()}")
+    for f in fails:
+        print("REPRODUCED:", f)
+    if not fails:
+        print("not reproduced")
+    sys.exit(1 if fails else 0)
